@@ -40,6 +40,8 @@ pub struct Style {
     pub block_lets: bool,
     /// permutation seed for the contributions of such blocks (0 = source order)
     pub block_shuffle: u64,
+    /// print `Comp::Monadic` blocks without the `@[monadic]` annotation and the monad arguments (the plain twin)
+    pub erase_monadic: bool,
 }
 
 impl Style {
@@ -56,6 +58,7 @@ impl Style {
             standard_builtin: false,
             block_lets: false,
             block_shuffle: 0,
+            erase_monadic: false,
         }
     }
     pub fn describe(&self) -> String {
@@ -622,6 +625,20 @@ impl<'a> Printer<'a> {
                 let s = self.val(v, &VTy::Int, true, vis);
                 format!("! exit {}", s)
             }
+            | Comp::Monadic { body, ty, args } => {
+                self.counter += 1;
+                let name = format!("mo_block{}", self.counter);
+                // the block is closed: its only free names are the host operations, which it takes as parameters
+                let ops = "(add : Thk (Int64 -> Int64 -> Ret Int64)) (sub : Thk (Int64 -> Int64 -> Ret Int64)) (mul : Thk (Int64 -> Int64 -> Ret Int64)) \
+                           (to_string : Thk (Int64 -> Ret String)) (append : Thk (String -> String -> Ret String))";
+                let b = self.comp(body, ty, false, &Vec::new());
+                let parts: Vec<String> = args.iter().map(|(a, t)| self.val(a, t, true, vis)).collect();
+                if self.style.erase_monadic {
+                    format!("let ! {name} = fn {ops} =>\n{b}\nin\n! {name} add sub mul to_string append {}", parts.join(" "))
+                } else {
+                    format!("let ! {name} = @[monadic] begin\nfn {ops} =>\n{b}\nend in\n! {name} Ret {{ ! ret_monad }} add sub mul to_string append {}", parts.join(" "))
+                }
+            }
         }
     }
 
@@ -645,7 +662,7 @@ impl<'a> Printer<'a> {
 
 /// Does printing `c` yield a binder-level (loosest) term that must be parenthesised in operand positions?
 fn loose(c: &Comp) -> bool {
-    matches!(c, Comp::Do { .. } | Comp::Let { .. } | Comp::Fn { .. } | Comp::Fix { .. } | Comp::TyFn { .. })
+    matches!(c, Comp::Do { .. } | Comp::Let { .. } | Comp::Fn { .. } | Comp::Fix { .. } | Comp::TyFn { .. } | Comp::Monadic { .. })
 }
 
 /// Values whose printed form cannot synthesise a type on its own.
@@ -703,6 +720,7 @@ pub fn free_in_comp(c: &Comp, x: VarId) -> bool {
         | Comp::Comatch { arms, .. } => arms.iter().any(|(_, c)| free_in_comp(c, x)),
         | Comp::Dtor { head, .. } => free_in_comp(head, x),
         | Comp::TyAppV { fun, .. } | Comp::TyAppC { fun, .. } => free_in_comp(fun, x),
+        | Comp::Monadic { body, args, .. } => free_in_comp(body, x) || args.iter().any(|(a, _)| free_in_val(a, x)),
         | Comp::Prim(_, args) => args.iter().any(|a| free_in_val(a, x)),
         | Comp::If { a, b, then, els, .. } => free_in_val(a, x) || free_in_val(b, x) || free_in_comp(then, x) || free_in_comp(els, x),
         | Comp::WriteLine(v, k) => free_in_val(v, x) || free_in_comp(k, x),
